@@ -113,7 +113,7 @@ theorem up_ord (n : Nat) : ∀ (fuel : Nat) (h : H κ ν) (j : Nat), n ≤ h.siz
             · by_cases hpk2 : (k - 1) / 2 = (j - 1) / 2
               · -- sibling of j
                 have := hex k hk hkn hkj
-                simp [hkj, hne, hpk, hpk2]
+                simp [hkj, hne, hpk2]
                 have hjj : (j - 1) / 2 ≠ j := h0
                 simp [hjj]
                 rw [hpk2] at this; omega
@@ -312,7 +312,7 @@ theorem shuf_swap {n : Nat} {h : H κ ν} {i j : Nat} (hn : n ≤ h.size) (hi : 
         · subst h2
           rw [hb] at he; cases he
           refine ⟨i, { b with index := i }, hi, ?_, hx⟩
-          rw [hg i]; simp [h1]
+          rw [hg i]; simp
           intro e; exact absurd e.symm h1
         · refine ⟨k, e, hk, ?_, hx⟩
           rw [hg k]; simp [h1, h2, he]
@@ -855,5 +855,141 @@ theorem replace_spec {h : H κ ν} (hinv : Inv h) {pos : Nat} {e : Entry κ ν} 
           rw [he] at he'; cases he'
           exact absurd hx.symm hne
         · exact ⟨k, e', hk, by rw [hg k]; simp [hkp, he'], hx⟩
+
+/-! ### the four operations of `queue.go` refine the specification -/
+
+/-- The heap `h` represents the specification queue `q`. -/
+def HRefines (h : H κ ν) (q : List (Item κ ν)) : Prop := Inv h ∧ ∀ x, x ∈ items h ↔ x ∈ q
+
+theorem hrefines_empty : HRefines (#[] : H κ ν) [] := by
+  refine ⟨⟨?_, ?_, ?_⟩, ?_⟩
+  · intro k _ hk; simp at hk
+  · intro k e he; simp at he
+  · intro k1 k2 e1 e2 h1; simp at h1
+  · intro x; simp [items]
+
+theorem key_ne_of_ne {h : H κ ν} (hinv : Inv h) {pos : Nat} {e : Entry κ ν} (he : h[pos]? = some e)
+    {x : Item κ ν} (hx : x ∈ items h) : x ≠ e.value ↔ x.key ≠ e.value.key := by
+  rw [mem_items] at hx
+  obtain ⟨k, e', hk, he', rfl⟩ := hx
+  constructor
+  · intro hne hkey
+    have := hinv.keys k pos e' e he' he hkey
+    subst this
+    rw [he] at he'; cases he'
+    exact hne rfl
+  · intro hne heq
+    exact hne (by rw [heq])
+
+theorem hrefines_insert {h : H κ ν} {q : List (Item κ ν)} (hr : HRefines h q) (r : Item κ ν) :
+    HRefines (Heap.insert h r) (Queue.insert q r) := by
+  obtain ⟨hinv, hq⟩ := hr
+  unfold Heap.insert
+  cases hf : find h r.key with
+  | none =>
+    have hnew := find_none hf
+    obtain ⟨i1, i2⟩ := push_spec hinv hnew
+    refine ⟨i1, ?_⟩
+    intro x
+    rw [i2 x, Kit.Processor.mem_insert, ← hq]
+    constructor
+    · rintro (hx | hx)
+      · exact Or.inl hx
+      · refine Or.inr ⟨hx, ?_⟩
+        rw [mem_items] at hx
+        obtain ⟨k, e, _, he, rfl⟩ := hx
+        exact hnew k e he
+    · rintro (hx | hx)
+      · exact Or.inl hx
+      · exact Or.inr hx.1
+  | some pos =>
+    obtain ⟨e, he, hkey⟩ := find_some hf
+    simp only [he]
+    have hidx : e.index.toNat = pos := by
+      have := hinv.idx pos e he
+      rw [this]; simp
+    rw [hidx]
+    obtain ⟨i1, i2⟩ := replace_spec hinv he hkey
+    refine ⟨i1, ?_⟩
+    intro x
+    rw [i2 x, Kit.Processor.mem_insert, ← hq]
+    constructor
+    · rintro (hx | ⟨hx, hne⟩)
+      · exact Or.inl hx
+      · refine Or.inr ⟨hx, ?_⟩
+        rw [← hkey]
+        exact (key_ne_of_ne hinv he hx).mp hne
+    · rintro (hx | ⟨hx, hne⟩)
+      · exact Or.inl hx
+      · refine Or.inr ⟨hx, ?_⟩
+        rw [← hkey] at hne
+        exact (key_ne_of_ne hinv he hx).mpr hne
+
+theorem hrefines_remove {h : H κ ν} {q : List (Item κ ν)} (hr : HRefines h q) (k : κ) :
+    HRefines (Heap.remove h k) (Queue.remove q k) := by
+  obtain ⟨hinv, hq⟩ := hr
+  unfold Heap.remove
+  cases hf : find h k with
+  | none =>
+    have hnew := find_none hf
+    refine ⟨hinv, ?_⟩
+    intro x
+    rw [Kit.Processor.mem_remove, ← hq]
+    constructor
+    · intro hx
+      refine ⟨hx, ?_⟩
+      rw [mem_items] at hx
+      obtain ⟨p, e, _, he, rfl⟩ := hx
+      exact hnew p e he
+    · exact fun hx => hx.1
+  | some pos =>
+    obtain ⟨e, he, hkey⟩ := find_some hf
+    simp only [he]
+    have hidx : e.index.toNat = pos := by
+      have := hinv.idx pos e he
+      rw [this]; simp
+    rw [hidx]
+    obtain ⟨i1, i2⟩ := removeAt_spec hinv he
+    refine ⟨i1, ?_⟩
+    intro x
+    rw [i2 x, Kit.Processor.mem_remove, ← hq]
+    constructor
+    · rintro ⟨hx, hne⟩
+      refine ⟨hx, ?_⟩
+      rw [← hkey]
+      exact (key_ne_of_ne hinv he hx).mp hne
+    · rintro ⟨hx, hne⟩
+      refine ⟨hx, ?_⟩
+      rw [← hkey] at hne
+      exact (key_ne_of_ne hinv he hx).mpr hne
+
+theorem hrefines_peek {h : H κ ν} {q : List (Item κ ν)} (hr : HRefines h q) : IsHead q (Heap.peek h) :=
+  peek_isHead hr.1 hr.2
+
+theorem hrefines_pop {h : H κ ν} {q : List (Item κ ν)} (hr : HRefines h q) :
+    match (Heap.pop h).1 with
+    | none => q = [] ∧ (Heap.pop h).2 = h
+    | some r => IsHead q (some r) ∧ HRefines (Heap.pop h).2 (Queue.pop q r) := by
+  obtain ⟨hinv, hq⟩ := hr
+  unfold Heap.pop
+  cases h0 : h[0]? with
+  | none =>
+    have hsz : h.size = 0 := by
+      rcases Nat.eq_zero_or_pos h.size with hz | hz
+      · exact hz
+      · simp [hz] at h0
+    have hp : popRoot h = (none, h) := by simp [popRoot, hsz]
+    rw [hp]
+    refine ⟨?_, rfl⟩
+    have := peek_isHead hinv hq
+    simpa [peek, h0, IsHead] using this
+  | some e =>
+    obtain ⟨p1, p2, p3⟩ := popRoot_spec hinv h0
+    rw [p1]
+    refine ⟨?_, p2, ?_⟩
+    · have := peek_isHead hinv hq
+      simpa [peek, h0] using this
+    · intro x
+      rw [p3 x, Kit.Processor.mem_pop, ← hq]
 
 end Kit.Queue.Heap
